@@ -500,6 +500,78 @@ Proof.
 Qed.
 End OpsFacts.
 
+(* ------------------------------------------------------------------ completeness of the sort specification *)
+Lemma unique_gen {A C} (Rle : A -> A -> Prop) (cls : C -> A -> bool) (l1 l2 : list A) :
+  (forall x, In x l1 -> exists c, cls c x = true /\ forall y, Rle x y -> Rle y x -> cls c y = true) ->
+  Permutation l1 l2 -> StronglySorted Rle l1 -> StronglySorted Rle l2 ->
+  (forall c, filter (cls c) l1 = filter (cls c) l2) -> l1 = l2.
+Proof.
+  revert l2. induction l1 as [|x r1 IH]; intros l2 Hc Hp Hs1 Hs2 Hf.
+  - apply Permutation_nil in Hp. subst. reflexivity.
+  - destruct l2 as [|y r2]; [apply Permutation_sym, Permutation_nil in Hp; discriminate|].
+    inversion Hs1 as [|x' r1' Hs1' Hall1]; subst. inversion Hs2 as [|y' r2' Hs2' Hall2]; subst.
+    assert (Hxy : x = y).
+    { destruct (Hc x (or_introl eq_refl)) as [c [Hcx Hcy]].
+      pose proof (Hf c) as Hk. cbn [filter] in Hk. rewrite Hcx in Hk.
+      destruct (cls c y) eqn:Ey; [inversion Hk; reflexivity|].
+      exfalso.
+      assert (Hx2 : In x r2).
+      { assert (Hin : In x (filter (cls c) r2)) by (rewrite <- Hk; left; reflexivity).
+        apply filter_In in Hin. apply Hin. }
+      assert (Hy1 : In y (x :: r1)) by (eapply Permutation_in; [apply Permutation_sym, Hp|left; reflexivity]).
+      destruct Hy1 as [Hy1|Hy1]; [subst y; congruence|].
+      rewrite Forall_forall in Hall1, Hall2.
+      rewrite (Hcy y (Hall1 y Hy1) (Hall2 x Hx2)) in Ey. discriminate. }
+    subst y. f_equal. apply IH.
+    + intros z Hz. apply Hc. right. exact Hz.
+    + eapply Permutation_cons_inv, Hp.
+    + exact Hs1'.
+    + exact Hs2'.
+    + intros c. pose proof (Hf c) as Hk. cbn [filter] in Hk. destruct (cls c x); [inversion Hk; reflexivity|exact Hk].
+Qed.
+
+Section SortChar.
+Context {I R K : Type}.
+Variable ieqb : I -> I -> bool.
+Hypothesis ieqb_spec : forall a b, ieqb a b = true <-> a = b.
+Variable kleb : K -> K -> bool.
+Hypothesis kleb_total : forall a b, kleb a b = true \/ kleb b a = true.
+Hypothesis kleb_trans : forall a b c, kleb a b = true -> kleb b c = true -> kleb a c = true.
+
+Lemma sort_ok_defined (key : R -> option K) desc (d d' : list (I * R)) :
+  sort_rows ieqb kleb key desc d = Ok d' -> Forall (fun kv => key (snd kv) <> None) d.
+Proof.
+  unfold sort_rows. destruct (decorate key d) as [dl|e] eqn:Ed; [|discriminate]. intros _.
+  destruct (decorate_spec key d dl Ed) as [Hm Hdec]. rewrite <- Hm. clear -Hdec.
+  induction Hdec as [|x l Hx Hl IH]; cbn; constructor; [|exact IH]. unfold decorated in Hx. congruence.
+Qed.
+
+(* the three facts of sort_spec determine the result: any list that is a permutation of the
+   source, sorted in the direction of the sort and stable IS the result of sort_rows *)
+Lemma sort_characterised (key : R -> option K) desc (d d' d'' : list (I * R)) :
+  NoDup (okeys d) -> sort_rows ieqb kleb key desc d = Ok d' ->
+  Permutation d'' d ->
+  StronglySorted (item_le kleb key desc) d'' ->
+  (forall k, filter (has_key kleb key k) d'' = filter (has_key kleb key k) d) ->
+  d'' = d'.
+Proof.
+  intros Hn Hs Hp Hso Hst. pose proof (sort_ok_defined key desc d d' Hs) as Hdef.
+  destruct (sort_spec ieqb ieqb_spec kleb kleb_total kleb_trans key desc d d' Hn Hs) as [Hp' [Hso' Hst']].
+  apply (unique_gen (item_le kleb key desc) (has_key kleb key)).
+  - intros x Hx. assert (Hxd : In x d) by exact (Permutation_in x Hp Hx).
+    rewrite Forall_forall in Hdef. specialize (Hdef x Hxd). destruct (key (snd x)) as [kx|] eqn:Ex; [|congruence].
+    exists kx. split.
+    + unfold has_key. rewrite Ex. unfold keq. destruct (kleb_total kx kx) as [H|H]; rewrite H; reflexivity.
+    + intros y [ka [kb [Ha [Hb Hab]]]] [kb' [ka' [Hb' [Ha' Hba]]]].
+      rewrite Ex in Ha, Ha'. inversion Ha; inversion Ha'; subst. rewrite Hb in Hb'. inversion Hb'; subst.
+      unfold has_key. rewrite Hb. destruct desc; cbn in Hab, Hba; unfold keq; rewrite Hab, Hba; reflexivity.
+  - eapply Permutation_trans; [exact Hp|apply Permutation_sym, Hp'].
+  - exact Hso.
+  - exact Hso'.
+  - intros k. rewrite Hst, Hst'. reflexivity.
+Qed.
+End SortChar.
+
 (* ------------------------------------------------------------------ registry, chains, export *)
 Lemma mid_eqb_spec a b : mid_eqb a b = true <-> a = b.
 Proof.
@@ -760,6 +832,17 @@ Qed.
 
 Lemma chain_invariant rows st : run rows init_state = Ok st -> reg_inv st.
 Proof. apply run_inv, init_inv. Qed.
+
+(* over a whole chain: a sheet stays exactly what it was as long as no row targets its name *)
+Lemma run_untouched rows st st' name :
+  run rows st = Ok st' -> Forall (fun r => target r <> name) rows ->
+  sget (reg st') name = sget (reg st) name.
+Proof.
+  revert st. induction rows as [|r rest IH]; intros st H Hf; cbn in H.
+  - inversion H; subst. reflexivity.
+  - destruct (step st r) as [st1|e] eqn:Es; [|discriminate]. inversion Hf as [|x y Hx Hy]; subst.
+    rewrite (IH st1 H Hy). eapply sources_untouched; [exact Es|]. intros Heq. apply Hx. symmetry. exact Heq.
+Qed.
 
 (* what the prefix runs of the harness observe: the k-th element of scan is the run of
    the first k+1 rows *)
